@@ -1764,17 +1764,31 @@ fn main() {
     let start = Instant::now();
     let quick = cli.tier.is_quick();
     let shards: usize = if quick { 32 } else { 128 };
-    let per_shard = cli.scaled(if quick { 10 } else { 60 });
+    let per_shard = cli.scaled(if quick { 12 } else { 60 });
     let steps: u32 = if quick { 34 } else { 44 };
     let seed = cli.seed;
+    let only: Option<(u64, u64)> = match (cli.extra.get("only-shard"), cli.extra.get("only-history")) {
+        (Some(a), Some(b)) => Some((a.parse().unwrap_or(0), b.parse().unwrap_or(0))),
+        _ => None,
+    };
     let mut report = run_sharded("C15", cli.threads, shards, |shard, r| {
         let mut rng = Rng::new(seed.wrapping_mul(1_000_003).wrapping_add(shard as u64).wrapping_mul(0x9E37));
         for hi in 0..per_shard {
             let mut hr = rng.fork(hi);
-            let ctx = json!({"seed": seed, "shard": shard, "history": hi, "tier": if quick {"quick"} else {"thorough"}});
+            // replay of a single history: --only-shard S --only-history H (same seed and tier)
+            if let Some((os, oh)) = only {
+                if os != shard as u64 || oh != hi {
+                    continue;
+                }
+            }
+            let ctx = json!({"seed": seed, "shard": shard, "history": hi, "tier": if quick {"quick"} else {"thorough"},
+                "how": "c15_prune --prop C15 --tier <tier> --seed <seed> --only-shard <shard> --only-history <history>"});
             run_history(&mut hr, r, ctx, steps);
         }
     });
+    if only.is_some() {
+        report.inconclusive("single-history replay (--only-shard/--only-history): coverage minimums not applicable");
+    }
     // antecedents that must have fired
     report.require("gone.legit", if quick { 30 } else { 300 });
     report.require("survived.forget.not-buried", 100);
